@@ -214,6 +214,9 @@ func (rep *Report) finish(E *Engine, prop string, cfg *PropCfg, tier string, see
 			nobl++
 			fn++
 			byKind[o.Kind]++
+			if dbg := os.Getenv("GOVC_DEBUG_OBL"); dbg != "" && strings.Contains(o.Name, dbg) {
+				fmt.Fprintf(os.Stderr, "DEBUG %s status=%s solver=%s secs=%.2f fn=%s\n", o.Name, o.Status, o.Solver, o.Secs, r.Key)
+			}
 			if o.Status == "discharged" {
 				ndis++
 				fd++
